@@ -11,7 +11,7 @@ A scenario is a dict:
   params   params dict or None
   arrivals list of (tick, msg) with msg one of
            ("res", idspec, tok) ("err", idspec, code, with_data) ("req", idspec)
-           ("notif",) ("prog", matches, val) ("batch", idspec)
+           ("notif",) ("nullerr",) ("nullres",) ("prog", matches, val) ("batch", idspec)
            idspec: ("me",) | ("str", s) | ("int", z)
 """
 from __future__ import annotations
@@ -64,6 +64,20 @@ def expected_cb_args(val):
     return (val, None, None)
 
 
+def materialise(params):
+    """{"$odd": kind} stands for request params holding a legal Python value that is not JSON-native (the streams carry
+    objects; nothing obliges the caller to use JSON types only): built here so that scenarios stay JSON-describable."""
+    if isinstance(params, dict) and set(params) == {"$odd"}:
+        import decimal
+        import pathlib
+        return {"path": {"name": "read", "arguments": {"file": pathlib.PurePosixPath("/tmp/x y")}},
+                "decimal": {"amount": decimal.Decimal("1.10"), "n": 1},
+                "set": {"tags": {"a"}, "k": [1]},
+                "bytes": {"blob": b"\x00\xff", "_meta": {"trace": b"t"}},
+                "nested": {"a": [{"p": pathlib.PurePosixPath("a/b")}, None]}}[params["$odd"]]
+    return params
+
+
 def build_message(msg, me_actual, token):
     from chuk_mcp.protocol.messages.json_rpc_message import parse_message
     k = msg[0]
@@ -85,6 +99,17 @@ def build_message(msg, me_actual, token):
                               "params": {"q": 1}})
     if k == "notif":
         return parse_message({"jsonrpc": "2.0", "method": "notifications/message", "params": {"level": "info"}})
+    if k in ("nullerr", "nullres"):
+        # a response that bears NO id: the null-id error a peer sends when it could not read a message (Parse error,
+        # Invalid Request), or an id-less result; it answers nobody's request
+        from chuk_mcp.protocol.messages.json_rpc_message import JSONRPCMessage
+        if k == "nullerr":
+            d = {"jsonrpc": "2.0", "id": None, "error": {"code": -32700, "message": "Parse error"}}
+            try:
+                return parse_message(d)
+            except Exception:                                   # noqa: BLE001
+                return JSONRPCMessage(**d)
+        return JSONRPCMessage(jsonrpc="2.0", result={"tok": 424242})
     if k == "prog":
         tok = token if (msg[1] and token is not None) else "some-other-token"
         return parse_message({"jsonrpc": "2.0", "method": "notifications/progress", "params": prog_params(msg[2], tok)})
@@ -128,6 +153,11 @@ async def _scenario(sc):
         post = [(t, m) for (t, m) in arrivals if t > 0]
         for m in pre:
             in_send.send_nowait(build_message(m, me_actual, token))
+        if sc.get("closed_before_call"):
+            # the peer answered and hung up before the caller got to read: what is buffered is still to be delivered
+            if post:
+                raise ValueError("closed_before_call needs every arrival to be queued beforehand")
+            in_send.close()
         if cancel is not None and cancel < 0:
             tok.cancel()
 
@@ -205,7 +235,7 @@ async def _scenario(sc):
             if cancel is not None and cancel >= 0:
                 tg.start_soon(canceller)
             try:
-                r = await sm.send_message(in_recv, out_send, "tools/call", copy.deepcopy(sc.get("params")),
+                r = await sm.send_message(in_recv, out_send, "tools/call", copy.deepcopy(materialise(sc.get("params"))),
                                           timeout=sc["D"] * TICK, message_id=me,
                                           cancellation_token=tok, progress_callback=cb if has_cb else None)
                 if isinstance(r, dict) and set(r) == {"tok"}:
@@ -300,8 +330,8 @@ def enc_msg(msg, me_actual) -> str:
         return f"(1 {enc_rid(resolve_id(msg[1], me_actual))} {msg[2]})"
     if k == "req":
         return f"(2 {enc_rid(resolve_id(msg[1], me_actual))})"
-    if k == "notif":
-        return "(3)"
+    if k in ("notif", "nullerr", "nullres"):
+        return "(3)"          # for the model: a message that bears no id and completes nothing
     if k == "prog":
         return f"(4 {1 if msg[1] else 0} {msg[2]})"
     if k == "batch":
@@ -358,7 +388,7 @@ def observe(sc, res):
             problems.append(f"request written with id {r0.id!r}, expected {me!r}")
         if r0.method != "tools/call":
             problems.append(f"request written with method {r0.method!r}")
-        want = sc.get("params")
+        want = materialise(sc.get("params"))
         got = r0.params
         if res["token"] is not None:
             want = dict(want or {})
@@ -468,6 +498,7 @@ def scenario_case(sc):
             **({"siblings": sc["siblings"]} if sc.get("siblings") else {}),
             **({"feeder_first": True} if sc.get("feeder_first") else {}),
             **({"debug_log": True} if sc.get("debug_log") else {}),
+            **({"closed_before_call": True} if sc.get("closed_before_call") else {}),
             "arrivals": [[t, list(m)] for t, m in sc["arrivals"]]}
 
 
